@@ -136,6 +136,9 @@ type TS struct {
 	Problem []string // unsupported constructs encountered (reported by the rule as undecided)
 	// NoSummarise makes the engine skip these in-scope callees (treated as opaque no-ops).
 	Opaque map[*ssa.Function]bool
+	// Relevant, when non-nil, restricts summarisation to these functions (those that can reach a
+	// primitive of the client); every other callee leaves the state unchanged.
+	Relevant map[*ssa.Function]bool
 }
 
 func NewTS(p *Prog, c TSClient) *TS {
@@ -408,7 +411,7 @@ func (t *TS) dispatch(x *TSCtx, site ssa.CallInstruction, ps *pstate) []TSOut {
 		return outs
 	}
 	callee := StaticCallee(site)
-	if callee != nil && t.P.InScope(callee) && !t.Opaque[callee] {
+	if callee != nil && t.P.InScope(callee) && !t.Opaque[callee] && (t.Relevant == nil || t.Relevant[callee]) {
 		return t.Summarise(x, site, callee, ps.s)
 	}
 	ek := KNoErr
